@@ -625,6 +625,11 @@ func (r *runner) classify(m missNode) (shape, why string) {
 			notByRule = append(notByRule, fmt.Sprintf("(%q@%d) inside the interval (bound %d)", c.Key, c.H, bound))
 			continue
 		}
+		if len(es) > 1 && es[1].H == es[0].H {
+			// the prune's same-height guard: nothing of this key is deleted
+			notByRule = append(notByRule, fmt.Sprintf("(%q@%d) two newest eligible entries share height %d (guard)", c.Key, c.H, es[0].H))
+			continue
+		}
 		e0 := es[0]
 		if e0.DBKey == c.DBKey {
 			// the entry the rule keeps: its path can only have been deleted through another entry
@@ -748,11 +753,17 @@ func (r *runner) reachableFromRootsAt(h int64, node string) bool {
 	return false
 }
 
-// onChainWrite: the current chain has a Save at the entry's height that wrote the entry's key.
+// onChainWrite: the current chain has a Save at the entry's height that wrote the entry's key with the value whose
+// leaf record the entry names (two forks may both have written the key at that height). The leaf record key is
+// height prefix + types.LeafNode.Hash of (key, model value); a one-leaf tree's root leaf has no prefix.
 func (r *runner) onChainWrite(e idxEntry) bool {
 	for _, ce := range r.chain {
 		if ce.H == e.H && ce.Saved && ce.W[e.Key] {
-			return true
+			ln := types.LeafNode{Key: []byte(e.Key), Value: []byte(ce.M[e.Key]), Height: 0, Size: 1}
+			h := string(ln.Hash())
+			if e.Hash == h || e.Hash == fmt.Sprintf("_mb_-%010d-", e.H)+h {
+				return true
+			}
 		}
 	}
 	return false
@@ -1465,7 +1476,7 @@ func run(c *lib.Ctx) {
 		jobs = append(jobs, job{w, stratumOf(&w)})
 		idx++
 	}
-	nClean, nTrig, nLarge := c.N(140, 2000), c.N(90, 1100), c.N(0, 16)
+	nClean, nTrig, nLarge := c.N(110, 2000), c.N(70, 1100), c.N(0, 16)
 	if c.Quick() {
 		nLarge = 0
 	}
